@@ -85,6 +85,7 @@ extern "C" void libnstd_verif_point(int id) {
   int p = __atomic_load_n(&g_pointPermille[id], RLX); if (!p) return;
   u64 r = trnd(); if ((int)(r % 1000) >= p) return;
   unsigned k = (unsigned)((r >> 12) % 10);
+  if (id == 20) { struct timespec ts = { 0, (long)(300000 + (r >> 20) % 1700000) }; nanosleep(&ts, 0); return; }   // Thread::start: hold the creator well after the new thread runs
   if (k < 5) sched_yield();
   else if (k < 9) { struct timespec ts = { 0, (long)(1000 + (r >> 20) % 60000) }; nanosleep(&ts, 0); }
   else { struct timespec ts = { 0, (long)(100000 + (r >> 20) % 200000) }; nanosleep(&ts, 0); }
@@ -214,7 +215,7 @@ static void runCases() {
     verif_pt_delay_permille = r.chance(1, 2) ? (int)r.range(5, 200) : 0; verif_pt_spurious_permille = r.chance(1, 2) ? (int)r.range(5, 100) : 0;
 #endif
     if (r.chance(1, 3)) __atomic_store_n(&g_pointPermille[20], (int)r.range(300, 1000), RLX);   // widen the window between pthread_create and the handle store
-    if (r.chance(1, 6)) __atomic_fetch_add(&g_skewMs, 3000, RLX);   // lets the retire-a-worker branch trigger on the next start
+    if (r.chance(1, 3)) __atomic_fetch_add(&g_skewMs, 3000, RLX);   // lets the retire-a-worker branch trigger on the next start
     hist.addf("# pool(min=%lu,max=%lu,queue=%lu) clients=%d futures/client=%d rounds=%d gated=%d/1000 abort=%d/1000 heavy-delays=%d skewMs=%ld\n",
               (unsigned long)kCfg[g_cfg][0], (unsigned long)kCfg[g_cfg][1], (unsigned long)kCfg[g_cfg][2], nclients, nfut, rounds, gated, abortp, heavy, (long)g_skewMs);
     setctxf("Future/workload");
